@@ -35,12 +35,14 @@ def inherent_impls(src, struct):
             if struct not in ('DefineResponse', 'DefineMultipleResponses') or not re.search(r'define_response_common_impl!\(' + struct + r'\)', src):
                 continue
         i = m.end() - 1
-        out.append(src[i + 1:close(src, i) - 1])
+        # the header's own generics and where clause bind every method of the block: they are handed on with the body
+        out.append((ws(head[len('impl'):-1]), src[i + 1:close(src, i) - 1]))
     return out
 
 
-def method_sig(body, name):
-    """(return type text, where-clause text) of `pub fn name` at depth 0 of an impl body"""
+def method_sig(block, name):
+    """(return type text, where-clause text incl. the impl header's bounds) of `pub fn name` in an impl block"""
+    header, body = block
     m = re.search(r'pub\s+fn\s+' + name + r'\b', body)
     if not m:
         return None
@@ -52,7 +54,9 @@ def method_sig(body, name):
         raise Unrecognised(f'{name}: no return type')
     rest = sig[k + 2:]
     w = re.search(r'\bwhere\b', rest)
-    return (ws(rest[:w.start()] if w else rest), ws(rest[w.end():]) if w else '')
+    # the method's own generics (`fn returns<T: ..>`) count as bounds too
+    own = ws(sig[:k])
+    return (ws(rest[:w.start()] if w else rest), ','.join(x for x in (header, own, ws(rest[w.end():]) if w else '') if x))
 
 
 def parse_sig(struct, name, ret, where):
@@ -65,16 +69,18 @@ def parse_sig(struct, name, ret, where):
     rep = {'Exact': 'some .exact', 'AtLeast': 'some .atLeast', None: 'none', 'R': 'none'}.get(rmark)
     if rep is None:
         raise Unrecognised(f'{struct}::{name}: repetition marker `{rmark}`')
-    need_clone = bool(re.search(r'(^|,)T:IntoReturn<', where))
-    once_ok = bool(re.search(r'(^|,)T:IntoReturnOnce<', where))
+    need_clone = bool(re.search(r'(^|[,<])T:IntoReturn<', where))
+    once_ok = bool(re.search(r'(^|[,<])T:IntoReturnOnce<', where))
     if name == 'returns' and not (need_clone or once_ok):
         raise Unrecognised(f'{struct}::returns: bound on T')
-    need_any = bool(re.search(r'(^|,)O:Ordering<Kind=InAnyOrder>', where))
-    if re.search(r'(^|,)O:Ordering<Kind=InOrder>', where):
+    need_any = bool(re.search(r'(^|[,<+])(O:|Copy\+)?Ordering<Kind=InAnyOrder>', where))
+    if re.search(r'Ordering<Kind=InOrder>', where):
         raise Unrecognised(f'{struct}::{name}: bound Kind = InOrder')
-    need_exact = bool(re.search(r'(^|,)R:Repetition<Kind=Exact>', where))
-    if re.search(r'(^|,)R:Repetition<Kind=AtLeast>', where):
+    need_exact = bool(re.search(r'(^|[,<])R:Repetition<Kind=Exact>', where))
+    if re.search(r'Repetition<Kind=AtLeast>', where):
         raise Unrecognised(f'{struct}::{name}: bound Kind = AtLeast')
+    if len(re.findall(r'Kind=', where)) != int(need_any) + int(need_exact):
+        raise Unrecognised(f'{struct}::{name}: a `Kind = ..` bound of another form')
     b = lambda x: 'true' if x else 'false'
     return f'(({STRUCTS[struct]}, {METHODS[name]}), ⟨{b(need_clone)}, {b(need_any)}, {b(need_exact)}, {STRUCTS[res]}, {rep}⟩)'
 
